@@ -3,9 +3,13 @@ package sm
 import (
 	"context"
 	"crypto/tls"
+	"io"
 	"net"
+	"time"
 
 	"github.com/fiorix/go-diameter/v4/diam"
+	"github.com/fiorix/go-diameter/v4/diam/avp"
+	"github.com/fiorix/go-diameter/v4/diam/datatype"
 	"github.com/fiorix/go-diameter/v4/diam/dict"
 )
 
@@ -78,4 +82,120 @@ func zzB2U(b bool) uint64 {
 		return 1
 	}
 	return 0
+}
+
+var zzEOF = io.EOF
+
+// zzSup is the reference "the local dictionary supports application id with this type" (DESIGN B.6),
+// computed over the public list of loaded applications: a declaration of the id with that type, or
+// without a type (an untyped declaration serves every type).
+func zzSup(id uint32, typ string) bool {
+	for _, a := range dict.Default.Apps() {
+		if a.ID == id && (a.Type == typ || a.Type == "") {
+			return true
+		}
+	}
+	return false
+}
+
+type zzAppAVP struct {
+	id   uint32
+	acct bool
+}
+
+func zzSettings(withAddrs bool) *Settings {
+	s := &Settings{
+		OriginHost:       datatype.DiameterIdentity("srv.example"),
+		OriginRealm:      datatype.DiameterIdentity("example"),
+		VendorID:         13,
+		ProductName:      "zz",
+		FirmwareRevision: 1,
+	}
+	if withAddrs {
+		s.HostIPAddresses = []datatype.Address{datatype.Address([]byte{192, 0, 2, 1}), datatype.Address([]byte{192, 0, 2, 2})}
+	}
+	return s
+}
+
+func zzU32AVP(m *diam.Message, code uint32) (uint32, bool) {
+	a, err := m.FindAVP(code, 0)
+	if err != nil {
+		return 0, false
+	}
+	v, ok := a.Data.(datatype.Unsigned32)
+	return uint32(v), ok
+}
+
+// zzIDs: symbolic non-zero identifiers (zero identifiers are the subject of C16 / zzC11_cer / zzC13_dwr;
+// excluding them here avoids a four-way split inside every Answer call of a history)
+func zzIDs(m *diam.Message) {
+	m.Header.HopByHopID, m.Header.EndToEndID = vU32("hbh"), vU32("e2e")
+	vAssume(m.Header.HopByHopID != 0 && m.Header.EndToEndID != 0)
+}
+
+func zzCER(appID uint32, inband uint32, withInband bool) *diam.Message {
+	m := diam.NewRequest(diam.CapabilitiesExchange, 0, dict.Default)
+	zzIDs(m)
+	m.NewAVP(avp.OriginHost, avp.Mbit, 0, datatype.DiameterIdentity("peer.example"))
+	m.NewAVP(avp.OriginRealm, avp.Mbit, 0, datatype.DiameterIdentity("peers"))
+	m.NewAVP(avp.HostIPAddress, avp.Mbit, 0, datatype.Address([]byte{10, 0, 0, 1}))
+	m.NewAVP(avp.VendorID, avp.Mbit, 0, datatype.Unsigned32(99))
+	m.NewAVP(avp.ProductName, 0, 0, datatype.UTF8String("peer"))
+	if withInband {
+		m.NewAVP(avp.InbandSecurityID, avp.Mbit, 0, datatype.Unsigned32(inband))
+	}
+	m.NewAVP(avp.AuthApplicationID, avp.Mbit, 0, datatype.Unsigned32(appID))
+	return m
+}
+
+func zzDWR() *diam.Message {
+	m := diam.NewRequest(diam.DeviceWatchdog, 0, dict.Default)
+	zzIDs(m)
+	m.NewAVP(avp.OriginHost, avp.Mbit, 0, datatype.DiameterIdentity("peer.example"))
+	m.NewAVP(avp.OriginRealm, avp.Mbit, 0, datatype.DiameterIdentity("peers"))
+	if zzFlag("dwrOriginState") {
+		m.NewAVP(avp.OriginStateID, avp.Mbit, 0, datatype.Unsigned32(vU32("osid")))
+	}
+	return m
+}
+
+func zzAppMsg(code uint32, app uint32, request bool) *diam.Message {
+	flags := uint8(0)
+	if request {
+		flags = diam.RequestFlag
+	}
+	m := diam.NewMessage(code, flags, app, 1, 1, dict.Default)
+	zzIDs(m)
+	m.NewAVP(avp.SessionID, avp.Mbit, 0, datatype.UTF8String("s;1"))
+	return m
+}
+
+// zzLastResultCode parses the most recent message written on c.
+func zzLastAnswer(c *zzConn) *diam.Message {
+	if len(c.written) == 0 {
+		return nil
+	}
+	m, err := diam.ReadMessage(&zzReader{b: c.written[len(c.written)-1]}, dict.Default)
+	if err != nil {
+		return nil
+	}
+	return m
+}
+
+const zzTickD = 120 * time.Millisecond // RetransmitInterval (one native tick)
+
+func zzClient(st *StateMachine, retrans int, watchdog bool) *Client {
+	return &Client{
+		Handler:            st,
+		MaxRetransmits:     uint(retrans),
+		RetransmitInterval: zzTickD,
+		EnableWatchdog:     watchdog,
+		WatchdogInterval:   4 * zzTickD,
+		AuthApplicationID:  []*diam.AVP{diam.NewAVP(avp.AuthApplicationID, avp.Mbit, 0, datatype.Unsigned32(4))},
+		AcctApplicationID:  []*diam.AVP{diam.NewAVP(avp.AcctApplicationID, avp.Mbit, 0, datatype.Unsigned32(3))},
+		VendorSpecificApplicationID: []*diam.AVP{diam.NewAVP(avp.VendorSpecificApplicationID, avp.Mbit, 0, &diam.GroupedAVP{AVP: []*diam.AVP{
+			diam.NewAVP(avp.VendorID, avp.Mbit, 0, datatype.Unsigned32(10415)),
+			diam.NewAVP(avp.AuthApplicationID, avp.Mbit, 0, datatype.Unsigned32(16777251)),
+		}})},
+	}
 }
